@@ -19,6 +19,13 @@ Theorem C14_identity :
 Proof. exact exec_identity. Qed.
 Print Assumptions C14_identity.
 
+(* a PassResult argument: only its model is used; the incoming flag never leaks into the result, so repeated
+   application `r = p(r)` sees each application's own flag (and the fixpoint theorems apply unchanged) *)
+Theorem C14_result_argument_flag_ignored :
+  forall p w m incoming, exec_arg p w m incoming = exec Z p w m.
+Proof. reflexivity. Qed.
+Print Assumptions C14_result_argument_flag_ignored.
+
 (* Sequential: the members run in order, each on the result of the previous one, and the reported flag is the
    OR of the members' flags. *)
 Theorem C14_sequential_modified :
